@@ -633,11 +633,10 @@ func (t *Terminal) handleKey(key rune) (line []string, ok bool) {
 				return
 			}
 		}
-		if key == '\t' {
-			// a typed TAB separates words like a blank does
-			key = ' '
-		}
-		if !isPrintable(key) {
+		// a typed TAB is kept as it is: between words it separates them for
+		// the engine like a blank does, inside a literal it is part of the
+		// value. (it is echoed as a blank, see writeLine)
+		if key != '\t' && !isPrintable(key) {
 			return
 		}
 		// (no upper bound on the entry: a pending statement keeps all its
@@ -672,7 +671,13 @@ func (t *Terminal) writeLine(line []rune) {
 		if todo > remainingOnLine {
 			todo = remainingOnLine
 		}
-		t.queue(line[:todo])
+		for _, r := range line[:todo] {
+			if r == '\t' {
+				// one cell on the screen, like every other key
+				r = ' '
+			}
+			t.outBuf = append(t.outBuf, []byte(string(r))...)
+		}
 		t.advanceCursor(visualLength(line[:todo]))
 		line = line[todo:]
 	}
